@@ -337,7 +337,8 @@ def run_peak(case, rec):
     # 3a. the same points in every ordering class / shape of x (a thinned grid: every 64th node keeps the far tails on
     #     both sides, plus all symmetric and half-maximum abscissae next to loc) ------------------------------------
     pick = np.unique(np.concatenate([[0, 1, 2, n - 3, n - 2, n - 1], np.arange(0, n, 64), np.arange(n, len(xs))]))  # the 3 outermost nodes per side are > 300 half widths out
-    check_orderings(rec, site, m0, p0, xs[pick], v[pick], xu)
+    if not case.get('deep') or case['yunit'] == 'counts':  # thorough: the unit of y cannot interact with the layout of x; run it for one y unit
+        check_orderings(rec, site, m0, p0, xs[pick], v[pick], xu)
     # 3b. the pseudo-Voigt is the documented mixture of the package's own (separately judged) Lorentzian and
     #     Gaussian of equal FWHM: fraction * L + (1 - fraction) * G ----------------------------------------
     if shape == 'pseudo_voigt':
